@@ -58,7 +58,7 @@ GEN_THOROUGH = GEN_QUICK + [
     ("double", {"P_RecTtls": "{2, 5, 100}", "P_Steps": "{1, 4, 7}", "P_Starts": "{8, 11, 14}", "P_Cfgs": NONE,
                 "P_Args": "SingleVariantArgs \\cup ForgedArgs", "P_RRV": "AllRRV", "P_SIGV": "AllSIGV", "P_KEYV": "AllKEYV"},
      2, 3, 2, "TRUE"),
-    ("four", {"P_RecTtls": "{2, 5, 100}", "P_Steps": "{1, 3, 7}", "P_Starts": "{8, 11, 14}", "P_Cfgs": ALL_CFGS,
+    ("four", {"P_RecTtls": "{2, 5, 100}", "P_Steps": "{1, 3, 7}", "P_Starts": "{8, 11, 14}", "P_Cfgs": NONE,
               "P_Args": "{" + ", ".join([G.format(2), G.format(5), G.format(100),
                                          '[rr |-> "genuine", sig |-> "exp", key |-> "genuine", rttl |-> 100]',
                                          '[rr |-> "rdataNameCase", sig |-> "genuine", key |-> "genuine", rttl |-> 5]',
